@@ -257,11 +257,12 @@ fn find_definition_paths_internal<'a>(
         }
       }
       SymbolDeclKind::QualifiedTarget(target_id, parts) => {
-        let inner_paths = go_to_id_and_parts_definition_paths(
+        let inner_paths = go_to_id_and_parts_definition_paths_internal(
           module_graph,
           module,
           target_id,
           parts,
+          visited_symbols,
           specifier_to_module,
         );
         if !inner_paths.is_empty() {
@@ -494,6 +495,36 @@ fn go_to_id_and_parts_definition_paths<'a>(
       module,
       module.symbol(symbol_id).unwrap(),
       parts,
+      specifier_to_module,
+    )
+  } else {
+    vec![DefinitionPathNode::Unresolved(DefinitionUnresolved {
+      module,
+      kind: DefinitionUnresolvedKind::Id(target_id.clone()),
+      parts: parts.to_vec(),
+    })]
+  }
+}
+
+/// Like `go_to_id_and_parts_definition_paths`, but continues the search of
+/// the caller (shares its visited symbols) so that alias cycles end.
+fn go_to_id_and_parts_definition_paths_internal<'a>(
+  module_graph: &'a ModuleGraph,
+  module: ModuleInfoRef<'a>,
+  target_id: &deno_ast::swc::ast::Id,
+  parts: &[String],
+  visited_symbols: &mut HashSet<UniqueSymbolId>,
+  specifier_to_module: &impl Fn(&ModuleSpecifier) -> Option<ModuleInfoRef<'a>>,
+) -> Vec<DefinitionPathNode<'a>> {
+  if let Some(symbol_id) =
+    module.esm().and_then(|m| m.symbol_id_from_swc(target_id))
+  {
+    resolve_qualified_name_internal(
+      module_graph,
+      module,
+      module.symbol(symbol_id).unwrap(),
+      parts,
+      visited_symbols,
       specifier_to_module,
     )
   } else {
